@@ -53,7 +53,7 @@ class C11(HistProp):
                     else: continue
                     l += ['H int 7 0 8 42'] + mut + ['H dump 0', 'H ser 0', 'H drop 7', 'H drop 1', 'H dump 0', 'H drop 0']
                 hs.append((l, [None] * len(l)))
-        for i in range(200 if tier == 'thorough' else 30):
+        for i in range(1000 if tier == 'thorough' else 30):
             hs.append(hist.history(rng, 80))
         return hs
 
